@@ -500,6 +500,32 @@ Definition validate_ent (isSIUnit isCompoundSIUnit : string -> bool) (isScalable
   end.
 
 (* ------------------------------------------------------------------------------------------ *)
+(** * The two validate functions of validate.cpp that File::validate never calls, and the accessors of Result
+    (routes of the public interface the correspondence run calls directly) *)
+
+(** valid::validate(const Dimension&): the generic descriptor *)
+Definition validate_dimension (idx : Z) : result :=
+  validator [ must unknown_id (Some idx) (notSmaller 1) "index is not set to valid value (> 0)!" [] ].
+
+(** what valid::validate(const File&) reads: id(), isOpen(), createdAt(), version().size(), format(), location() *)
+Record vheader : Set := {
+  h_id : string; h_open : bool; h_created : option Z; h_version_n : Z; h_format : string; h_location : string }.
+Definition validate_file (h : vheader) : result :=
+  let id := h_id h in
+  validator [
+    could (Some (h_open h)) id_bool [
+      must id (h_created h) num_notFalse "date is not set!" [];
+      should id (Some (h_version_n h)) count_notEmpty "version is not set!" [];
+      should id (Some (h_format h)) str_notEmpty "format is not set!" [];
+      should id (Some (h_location h)) str_notEmpty "location is not set!" [] ]
+  ].
+
+(** Result::ok / hasErrors / hasWarnings *)
+Definition has_errors (r : result) : bool := match errors r with [] => false | _ => true end.
+Definition has_warnings (r : result) : bool := match warnings r with [] => false | _ => true end.
+Definition result_ok (r : result) : bool := negb (has_errors r) && negb (has_warnings r).
+
+(* ------------------------------------------------------------------------------------------ *)
 (** * The model of the *current* working tree.
     These two lines are the only ones to change when the corresponding fix: commit lands
     (notes/proposed-fixes/C19-tag-units.patch, C19-property-unit.patch). *)
